@@ -190,8 +190,10 @@ struct Run {
     bool modeB = false;
     std::string cont, elem;
     // current op
-    size_t opIdx = 0; const Json* op = nullptr; std::string kind, phase, stateClass;
-    bool fired = false, threw = false, stop = false;
+    size_t opIdx = 0; const Json* op = nullptr; std::string kind, phase, stateClass, family, directOp;
+    bool fired = false, threw = false, stop = false, mismatched = false, poisoned = false;
+    int anomalies = 0;
+    std::string lastFaultFamily; size_t lastFaultOp = 0;
     long liveBias = 0, extraLive = 0;                       // extraLive: counting elements inside temporaries the harness holds during this op
     const char* apiClass = ""; const char* apiMethods = "";   // who the harness calls directly (assert attribution)
 
@@ -207,12 +209,25 @@ struct Run {
         return r;
     }
     std::string where() const { return "op#" + std::to_string(opIdx) + " " + kind + " [" + stateClass + "]"; }
-    void mismatch(const std::string& what, const std::string& detail) { res.violate("model-mismatch", cont + ":" + kind, where() + ": " + what + ": " + detail); }
-    void corrupt(const std::string& what, const std::string& detail) { res.violate("fault-corrupts-container", cont + ":" + kind + ":" + what, where() + " after refused allocation: " + what + ": " + detail); }
+    void mismatch(const std::string& what, const std::string& detail) { mismatched = true; ++anomalies; res.violate("model-mismatch", cont + ":" + kind, where() + ": " + what + ": " + detail); }
+    // After a refused allocation left the container in an inadmissible state the history ends: everything that
+    // follows would only be a consequence.  The signature names the operation family, not the symptom.
+    void corrupt(const std::string& what, const std::string& detail) {
+        res.violate("fault-corrupts-container", cont + ":" + family, where() + " after refused allocation: " + what + ": " + detail);
+        res.count("fault-corrupts:" + cont + ":" + family + ":" + what); stop = poisoned = true; ++anomalies;
+    }
     // an observable is wrong: attribute to the fault if one fired in this op, otherwise it is a plain model mismatch
     void bad(const std::string& what, const std::string& detail) { if (fired) corrupt(what, detail); else mismatch(what, detail); }
+    // element construction/destruction anomalies.  In a history in which an allocation has been refused earlier they
+    // are the late symptom of that failure (fault-injecting and fault-free findings are kept apart).
     void lifetime(const std::string& what, const std::string& detail) {
-        if (fired) corrupt(what, detail); else res.violate("element-lifetime", cont + ":" + kind + ":" + what, where() + ": " + detail);
+        ++anomalies;
+        if (fired) corrupt(what, detail);
+        else if (mm.refused) {
+            res.violate("fault-corrupts-container", cont + ":" + lastFaultFamily + ":latent", where() + ": " + what + ": " + detail + " (surfaced after the refused allocation in op#" + std::to_string(lastFaultOp) + ")");
+            stop = poisoned = true;
+        }
+        else res.violate("element-lifetime", cont + ":" + kind + ":" + what, where() + ": " + detail);
     }
     void harness(const std::string& d) { if (res.status != "harness-error") res.harness(where() + ": " + d); stop = true; }
     bool need(bool c, const char* what) { if (!c) harness(std::string("generator/interpreter precondition broken: ") + what); return c; }
@@ -228,7 +243,7 @@ struct Run {
         catch (...) { mm.clearFault(); throw; }
         mm.clearFault();
         fired = mm.refused > before;
-        if (fired) { res.count("fault:alloc-fail"); res.count(threw ? "fault-surfaced:exception" : "fault-surfaced:absorbed"); }
+        if (fired) { lastFaultFamily = family; lastFaultOp = opIdx; res.count("fault:alloc-fail"); res.count(threw ? "fault-surfaced:exception" : "fault-surfaced:absorbed"); }
         else if (k) res.count("fault-not-reached");
         if (threw && !fired) harness("OutOfMemoryException without a refused allocation");
     }
